@@ -14,7 +14,7 @@ outside the pickled object graph: nothing reachable from DemeTree.__init__ / run
 mutates a default-argument object (such state would be lost or shared across a restore); (R19.4) no class of the graph defines
 __getstate__/__reduce__/__reduce_ex__/__setstate__/__slots__/__deepcopy__ that could drop attributes (each such method must
 cover every attribute the class assigns); (R19.5) nothing unpicklable by construction (open files, generators, thread locks,
-locally defined classes) is stored on the tree, demes, engines, problems or sprout mechanisms. Round-3/4 extensions: the NaN-tie coin flip counts as an effect of the snapshot operations; dill options that change what is captured (`recurse=True`)."""
+locally defined classes) is stored on the tree, demes, engines, problems or sprout mechanisms. Round-3/4 extensions: the NaN-tie coin flip counts as an effect of the snapshot operations; dill options that change what is captured (`recurse=True`). (R19.6) no attribute is a numpy view of another attribute written in place; (R19.7) no decision rests on the identity (`is`) of a float / string / number constant, which a snapshot stores by value; methods called on the loaded tree inside pickle_load count as effects of pickle_load (an evaluation of the objective there is reported first)."""
 NOTE = """Equality of what dill restores (third-party objects: cma strategy, qmc samplers, structlog logger) and the behaviour of the
 continued run are not decided; they rest on those libraries' own pickling support."""
 TECHNIQUE = "transitive effect summaries (purity of dump/load), global/class-state write detection over the call graph, reducer-hook exhaustiveness"
@@ -95,7 +95,7 @@ def r19_1(ctx: Ctx):
     wb = [w for g_ in _with_helpers(ctx, d) for w in body_walk(g_.node) if isinstance(w, ast.Call) and norm(w.func) == "open" and len(w.args) >= 2 and isinstance(w.args[1], ast.Constant)]
     okm = bool(wb) and all("b" in w.args[1].value and "w" in w.args[1].value for w in wb)
     any_open = [w for g_ in _with_helpers(ctx, d) for w in body_walk(g_.node) if isinstance(w, ast.Call) and norm(w.func).split(".")[-1] in ("open", "write_bytes")]
-    obs.append(ctx.ob("R19.1", d, wb[0] if wb else d.node, status=OK if okm else VIOLATION if wb else INCONCLUSIVE if any_open else VIOLATION, detail="binary write mode" if okm else "snapshot file is not opened in binary write mode", construct="dump-mode"))
+    obs.append(ctx.ob("R19.1", d, wb[0] if wb else d.node, status=OK if okm else VIOLATION if wb else INCONCLUSIVE, detail="binary write mode" if okm else "snapshot file is not opened in binary write mode" if wb else "no `open(<path>, <literal mode>)` found behind pickle_dump: how the snapshot file is opened is not followed", construct="dump-mode"))
     l = ctx.prog.own_method("DemeTree", "pickle_load")
     loads = [c for c in body_walk(l.node) if isinstance(c, ast.Call) and isinstance(c.func, ast.Attribute) and c.func.attr in ("load", "loads")]
     rets = [r for r in body_walk(l.node) if isinstance(r, ast.Return)]
